@@ -3,6 +3,7 @@ package checks
 import (
 	"bytes"
 	"fmt"
+	"runtime"
 
 	"github.com/gregoryv/mq"
 
@@ -66,6 +67,7 @@ func c04Read(c *run.Ctx, kind string, in []byte) {
 	c.CurrentBytes("ReadPacket", in)
 	res := mon.Read(bytes.NewReader(in))
 	c.Eval(1)
+	collectAfterHuge(in)
 	entered := false
 	T := "?"
 	if h, err := ref.ParseHeader(in); err == nil {
@@ -145,4 +147,13 @@ func c04Unmarshal(c *run.Ctx, kind string, t, rk int, body []byte, reused *[16]m
 		c.Count("outcome", "UnmarshalBinary/nil", 1)
 	}
 	c.Count("receivers", rname, 1)
+}
+
+// collectAfterHuge forces a collection after a call whose header declared
+// more than 16 MiB, so that the frame buffers of successive calls do not pile
+// up as uncollected garbage and trip the heap poller.
+func collectAfterHuge(in []byte) {
+	if h, err := ref.ParseHeader(in); err == nil && h.RemLen > 1<<24 {
+		runtime.GC()
+	}
 }
